@@ -55,9 +55,9 @@ Definition NS_PER_MS : N := 1000000.
 (** * Encoder ([MultiplexMsg::write], [ExchangedCfg::write]) *)
 Definition flag (b : bool) (f : N) : N := if b then f else 0.
 
-(** [Duration::as_millis().min(u64::MAX)] of an optional timeout, [unwrap_or_default] = 0 *)
+(** a present timeout is exchanged in whole milliseconds, clamped to [1, u64::MAX]; 0 = none *)
 Definition timeout_millis (t : option N) : N :=
-  N.min (match t with None => 0 | Some ns => ns / NS_PER_MS end) U64_MAX.
+  match t with None => 0 | Some ns => N.max 1 (N.min (ns / NS_PER_MS) U64_MAX) end.
 
 Definition enc_cfg (c : xcfg) : list N :=
   le 8 (timeout_millis (x_timeout c)) ++ le 4 (x_chunk c) ++ le 4 (x_buffer c) ++ le 2 (x_queue c).
